@@ -78,6 +78,85 @@ class LinearSet:
         r -= o
         return r
 
+    # --- the rest of the set API (not used by pyrtma today; present so that a refactor using them is executed, not rejected)
+    def __and__(self, o):
+        ys = list(o)
+        return LinearSet([x for x in self.xs if _in(x, ys)], self.order)
+
+    __rand__ = __and__
+
+    def __iand__(self, o):
+        ys = list(o)
+        self.xs = [x for x in self.xs if _in(x, ys)]
+        return self
+
+    def __xor__(self, o):
+        ys = list(o)
+        return LinearSet([x for x in self.xs if not _in(x, ys)] + [y for y in ys if y not in self], self.order)
+
+    __rxor__ = __xor__
+
+    def __ror__(self, o):
+        return LinearSet(list(o), self.order) | self
+
+    def __rsub__(self, o):
+        return LinearSet([y for y in list(o) if y not in self], self.order)
+
+    def union(self, *others):
+        r = self.copy()
+        for o in others:
+            r |= o
+        return r
+
+    def intersection(self, *others):
+        r = self.copy()
+        for o in others:
+            r &= o
+        return r
+
+    def difference(self, *others):
+        r = self.copy()
+        for o in others:
+            r -= o
+        return r
+
+    def update(self, *others):
+        for o in others:
+            self.__ior__(o)
+
+    def intersection_update(self, *others):
+        for o in others:
+            self.__iand__(o)
+
+    def difference_update(self, *others):
+        for o in others:
+            self.__isub__(o)
+
+    def issubset(self, o):
+        ys = list(o)
+        return all(_in(x, ys) for x in self.xs)
+
+    def issuperset(self, o):
+        return all(y in self for y in list(o))
+
+    def isdisjoint(self, o):
+        ys = list(o)
+        return not any(_in(x, ys) for x in self.xs)
+
+    __le__ = issubset
+    __ge__ = issuperset
+
+    def __lt__(self, o):
+        return self.issubset(o) and not self.issuperset(o)
+
+    def __gt__(self, o):
+        return self.issuperset(o) and not self.issubset(o)
+
+    def pop(self):
+        if not self.xs:
+            raise KeyError("pop from an empty set")
+        return self.xs.pop()
+
     def __eq__(self, o):
         try:
             ys = list(o)
